@@ -262,7 +262,13 @@ Definition check_parse (table : list (string * string)) (s : string) (impl : opt
   | Some p, Some e =>
       ([], map (fun pt => let r := envQ pt (dfltQ 0) in
                           if inexact then cmpQ_tol (1 # 1000000000) (evalP table r p) (evalQ r e)
-                          else cmpQ_rel (1 # 1000000000000) (evalP table r p) (evalQ r e)) pts)
+                          else match evalP table r p, evalQ r e with
+                               | Some x, Some y =>
+                                   (* integers are read exactly, however many digits they have *)
+                                   if is_int x && is_int y then (if Qeq_bool x y then 0%nat else 1%nat)
+                                   else cmpQ_rel (1 # 1000000000000) (Some x) (Some y)
+                               | a, b => cmpQ_rel (1 # 1000000000000) a b
+                               end) pts)
   end.
 
 (* ---------- C12: an expression, the text the implementation wrote for it, and what it read back ---------- *)
